@@ -3,28 +3,8 @@ from ..comp import slp as S
 
 ID = 'C17'
 P = 'EAO.Properties.C17'
-THEOREMS = [
-    (P, 'EAO.C17.makeSlp_ok_iff', 'exact success condition of make_slp (non-empty future, future labels in range, bounds and samples of the right length)'),
-    (P, 'EAO.C17.makeSlp_error', 'every failure is an index error'),
-    (P, 'EAO.C17.makeSlp_eq', 'shape of the SLP problem: cost, bounds, rows, mapping'),
-    (P, 'EAO.C17.slp_n', 'n_slp = n + S * n_future'),
-    (P, 'EAO.C17.slp_structure', 'a point of the SLP problem is (x_present, x_future^0 .. x_future^S): it is feasible iff every recombined (x_present, x_future^s) is feasible for the original problem; its value is value_present + mean over scenarios of value_future^s. Present-stage decisions are common to all scenarios by construction'),
-    (P, 'EAO.C17.value_split', 'value = present part + future part'),
-    (P, 'EAO.C17.slp_value_mean', 'if the samples share the present costs the SLP value is the mean of the full scenario values'),
-    (P, 'EAO.C17.slp_mapping_faithful', 'the mapping of the SLP problem keeps the original rows and gives every copy the label of its new variable; first rows and boolean variables are the original ones plus the copies'),
-    (P, 'EAO.C17.slp_dispatch_mean', 'the dispatch reported for an SLP result = mean over scenarios of the dispatch of the recombined points: present variables count once (also where they reach into the future), future variables are averaged'),
-    (P, 'EAO.C17.slp_dispatch_balance', 'hence the reported SLP dispatch balances at every node and step where every recombined point does'),
-    (P, 'EAO.C17.slp_le_wait_and_see', 'abstract two-stage lemma: SLP value <= mean of per-scenario upper bounds'),
-    (P, 'EAO.C17.ev_le_slp', 'abstract: fixing the first stage to any decision that admits recourse in every scenario gives an SLP-feasible point; its mean value is <= every upper bound of the SLP value'),
-    (P, 'EAO.C17.slp_eq_det_of_equal', 'abstract: all scenarios equal => SLP optimum = deterministic optimum'),
-    (P, 'EAO.C17.slp_le_wait_and_see_problem', 'instance for makeSlp'),
-    (P, 'EAO.C17.slp_eq_det_of_equal_problem', 'instance for makeSlp'),
-    (P, 'EAO.C17.robust_bounds', 'worst case of any feasible x <= smallest per-scenario upper bound; the maximiser of the worst case dominates the worst case of every feasible point'),
-    (P, 'EAO.C17.robust_bounds_problem', 'instance for the robust target (robustObjective)'),
-    (P, 'EAO.C17.robust_reported_value', 'if the problem\'s own cost vector is among the samples the worst case is at most the reported value'),
-    ('EAO.Properties.C03', 'EAO.C03.robust_epigraph', 'the epigraph value handed to the solver is the minimum over the samples of -c_s.x'),
-]
-PARTIAL = ['ev_le_slp is proved in abstract form; its concrete instance for makeSlp (fixing the present variables) is a TARGET comment in C17.lean and covered by the oracle chain EEV <= SLP <= WS on the real code']
+THEOREMS = S.THEOREMS_C17
+PARTIAL = S.PARTIAL_C17
 COMPONENTS = ['makeSlp vs stoch_lin_prog.make_slp (full problem incl. mapping labels and slp column)', 'SLP read-out (dispatch of future steps averaged) vs io.extract_output', 'robust value']
 RULE = ('small LP portfolios (one row per variable, several rows per variable, row-less variables, scaled asset), boundary at first/last step/off-grid, 1-4 samples; per case: make_slp correspondence, chain EEV_k <= SLP <= wait-and-see, SLP = deterministic for equal scenarios, read-out (DCF total, nodal balance, mean dispatch), robust bounds; '
         'non-trivial = SLP solved with a strict inequality somewhere in the chain or robust bounds; distinct by case hash')
